@@ -52,6 +52,8 @@ func behaviourClass(steps []step, verdictKey string) string {
 			feat["dmg:"+s.str("how")] = true
 		case "otherpush":
 			feat["other"] = true
+		case "otherdelete":
+			feat["otherdelete"] = true
 		case "merge":
 			feat["merge"] = true
 			merged[s.str("o")] = true
@@ -289,6 +291,8 @@ func applyRepoStep(w *World, s step) (handled bool, err error) {
 		return true, w.Damage(s.str("oid"), s.str("how"))
 	case "otherpush":
 		return true, w.OtherPush(s.str("b"), toStrings(s["oids"]))
+	case "otherdelete":
+		return true, w.OtherDelete(s.str("b"), toStrings(s["gone"]))
 	}
 	return false, nil
 }
@@ -511,7 +515,7 @@ func init() {
 		}
 		appendFile(r.OutFile, rs.OutFile)
 		bs, total, nclasses := sampleBehaviours(c, r.OutFile, "verdict", budget)
-		requireActions(c, "commit", "damage", "otherpush", "push", "merge")
+		requireActions(c, "commit", "damage", "otherpush", "otherdelete", "push", "merge")
 		c.Set("push_edges_emitted", total)
 		c.Set("behaviour_classes", nclasses)
 		if len(bs) < 20 {
